@@ -74,7 +74,7 @@ impl Profile {
             max_events: 40,
             max_tables: 3,
             max_sessions: 3,
-            max_inserts_per_table: 32,
+            max_inserts_per_table: 64,
             w_session: 50,
             w_auto: 25,
             w_batch: 5,
@@ -124,7 +124,6 @@ pub fn default_guards() -> Vec<String> {
         "create_index_inside_session",           // X1
         "alter_drop_column",                     // D17, D17b
         "alter_add_column",                      // D16
-        "more_than_32_inserts_per_table",        // D9, D15b
         "more_than_3_relations",                 // D15, F3 (tables + indexes)
     ]
     .iter()
